@@ -180,20 +180,19 @@ package ast_go
 //@ spec FDRecv(node ast.Node) string := RecvName((*(*(*node.(*ast.FuncDecl)).Recv).List[0]).Type)
 //@ spec HasRecv(node ast.Node) bool := TypeIs(node, *ast.FuncDecl) && (*node.(*ast.FuncDecl)).Recv != nil && len((*(*node.(*ast.FuncDecl)).Recv).List) == 1 && (TypeIs((*(*(*node.(*ast.FuncDecl)).Recv).List[0]).Type, *ast.Ident) || TypeIs((*(*(*node.(*ast.FuncDecl)).Recv).List[0]).Type, *ast.StarExpr)) && FDRecv(node) != ""
 //@ closure CocagoParser.Visitor$1
-//@ requires *dsMap != nil && *n != nil
-//@ requires forall k string :: {(*dsMap)[k]} (k in *dsMap) ==> (*dsMap)[k] != nil && (*dsMap)[k] != currentStruct && Allocated((*dsMap)[k])
-//@ requires forall k1 string, k2 string :: {(*dsMap)[k1], (*dsMap)[k2]} (k1 in *dsMap) && (k2 in *dsMap) && k1 != k2 ==> (*dsMap)[k1] != (*dsMap)[k2]
+//@ requires *n != nil
+//@ preserves *dsMap != nil
+//@ preserves forall k string :: {(*dsMap)[k]} (k in *dsMap) ==> (*dsMap)[k] != nil && (*dsMap)[k] != currentStruct && Allocated((*dsMap)[k])
+//@ preserves forall k1 string, k2 string :: {(*dsMap)[k1], (*dsMap)[k2]} (k1 in *dsMap) && (k2 in *dsMap) && k1 != k2 ==> (*dsMap)[k1] != (*dsMap)[k2]
 //@ modifies *
 //@ ensures result
-//@ ensures *dsMap != nil
-//@ ensures forall k1 string, k2 string :: {(*dsMap)[k1], (*dsMap)[k2]} (k1 in *dsMap) && (k2 in *dsMap) && k1 != k2 ==> (*dsMap)[k1] != (*dsMap)[k2]
-//@ ensures forall k string :: {(*dsMap)[k]} (k in *dsMap) ==> (*dsMap)[k] != nil && (*dsMap)[k] != currentStruct && Allocated((*dsMap)[k])
 // a type declaration starts a fresh entry under the declared name; the types listed so far are not touched
 //@ ensures TypeIs(node, *ast.TypeSpec) ==> (TSName(node) in *dsMap) && (*(*dsMap)[TSName(node)]).NodeName == TSName(node)
 //@ ensures TypeIs(node, *ast.TypeSpec) && (TSName(node) in old(*dsMap)) ==> (*(*dsMap)[TSName(node)]).Functions == old((*(*dsMap)[TSName(node)]).Functions)
 //@ ensures TypeIs(node, *ast.TypeSpec) ==> (forall k string :: {(*dsMap)[k]} (k in old(*dsMap)) && k != TSName(node) ==> (k in *dsMap) && (*dsMap)[k] == old((*dsMap)[k]) && *(*dsMap)[k] == old(*(*dsMap)[k]))
 // a method is attached to the entry of its receiver's type, whether or not that type has been met yet
 //@ ensures HasRecv(node) ==> (FDRecv(node) in *dsMap) && len((*(*dsMap)[FDRecv(node)]).Functions) >= 1 && (*(*dsMap)[FDRecv(node)]).Functions[len((*(*dsMap)[FDRecv(node)]).Functions) - 1].Name == FDName(node)
+//@ ensures HasRecv(node) && !(FDRecv(node) in old(*dsMap)) ==> len((*(*dsMap)[FDRecv(node)]).Functions) == 1 && (*(*dsMap)[FDRecv(node)]).NodeName == FDRecv(node)
 //@ ensures HasRecv(node) && (FDRecv(node) in old(*dsMap)) ==> len((*(*dsMap)[FDRecv(node)]).Functions) == old(len((*(*dsMap)[FDRecv(node)]).Functions)) + 1 && (*(*dsMap)[FDRecv(node)]).NodeName == old((*(*dsMap)[FDRecv(node)]).NodeName)
 //@ ensures HasRecv(node) ==> (forall k string :: {(*dsMap)[k]} (k in old(*dsMap)) && k != FDRecv(node) ==> (k in *dsMap) && (*dsMap)[k] == old((*dsMap)[k]) && *(*dsMap)[k] == old(*(*dsMap)[k]))
 // a function without receiver becomes one member of the file
